@@ -388,7 +388,7 @@ def pack_ext(run, twin=None):
 
     def mk():
         assume(z3.And(ty >= -128, ty <= 127, n >= 0))
-        o = m.Ext.__new__(m.Ext)
+        o = loader.bare_instance(m.Ext)
         o.type = SInt(ty)
         o.data = SBytes((blob(d, n),))
         return o
@@ -750,7 +750,7 @@ def ext_init(run, twin=None):
 
     def body():
         assume(n >= 0)
-        o = m.Ext.__new__(m.Ext)
+        o = loader.bare_instance(m.Ext)
         holder['o'] = o
         f(o, SInt(ty), SBytes((blob(d, n),)))
         return o
@@ -769,7 +769,7 @@ def ext_init(run, twin=None):
     core.explore(body, on_path)
     for bad in ('x', 1.5, None):
         def body2(bad=bad):
-            return f(m.Ext.__new__(m.Ext), bad, b'')
+            return f(loader.bare_instance(m.Ext), bad, b'')
 
         def on2(p, out, bad=bad):
             prove('non-int-type-%s-refused' % type(bad).__name__, out[0] == 'exc' and isinstance(out[1], TypeError), path=p)
@@ -1174,7 +1174,7 @@ def value_of(m, v, data):
     if k == 'bin':
         return SBytes((data.slice(v.start, v.n),))
     if k == 'ext':
-        o = m.Ext.__new__(m.Ext)
+        o = loader.bare_instance(m.Ext)
         o.type, o.data = SInt(v.ty), SBytes((data.slice(v.start, v.n),))
         return o
 
@@ -1286,7 +1286,7 @@ def pack3_dispatch(run, twin=None):
     for nm, fam in PACKERS.items():
         stubs[nm] = (lambda fam: lambda obj, fp: calls.append((fam, obj, fp)))(fam)
     f = loader.load(MOD, '_pack3', stubs=stubs)
-    ext = m.Ext.__new__(m.Ext)
+    ext = loader.bare_instance(m.Ext)
     ext.type, ext.data = 5, b'x'
 
     class Other(object):
